@@ -187,10 +187,7 @@ def work(case):
                 code = cli.main(argv)
             except BaseException as e:
                 if type(e).__name__ == "CpuBudget":
-                    sys.stdout, sys.stderr = old
-                    os.dup2(saved_fd, 1)
-                    os.close(saved_fd)
-                    raise
+                    raise           # (the finally clause below puts the streams and descriptor 1 back; the worker reports the budget)
                 out["exc"] = obs.exc_record(e, 0)
             finally:
                 sys.stdout, sys.stderr = old
@@ -199,7 +196,7 @@ def work(case):
                 except Exception:
                     pass
                 os.dup2(saved_fd, 1)
-            os.close(saved_fd)
+                os.close(saved_fd)
             fdcap.seek(0)
             leaked = fdcap.read().decode("utf-8", "replace")
             fdcap.close()
@@ -298,7 +295,15 @@ def judge(run, case, ob):
         return "harness"
     if ob.get("_cpu_exhausted") or ob.get("_cpu_budget_fired_at") or (ob.get("_timeout") and ob.get("cpu_s", 0) > 20):
         at = ob.get("_cpu_exhausted_at") or ob.get("_cpu_budget_fired_at") or ob.get("_stuck_at") or "unknown"
-        run.violation(f"C01:{at}:cpu-budget-exceeded-10x", f"{kind} via {mode}: CPU time exceeded 10x the budget (2 s + 4 us/byte), still running in {at} ({fam}/{rec.get('op')} of {rec['src']})", rep)
+        key = f"C01:{at}:cpu-budget-exceeded-10x"
+        what = f"{kind} via {mode}: CPU time exceeded 10x the budget (2 s + 4 us/byte), still running in {at} ({fam}/{rec.get('op')} of {rec['src']})"
+        pending = getattr(run, "_pending_cpu", None)
+        if pending is None or key in run.open_keys or case.get("_confirming"):
+            run.violation(key, what, rep)
+        else:
+            # CPU seconds stretch when sixteen workers share the cores (a case that needs 10 s alone was seen at 25 s): the verdict is
+            # taken from a re-measurement of the case with the machine to itself, after the pool has drained (main)
+            pending.setdefault(key, []).append((case, what))
         return "hang"
     if ob.get("_oom"):
         run.violation(f"C01:{tag}:{fam}:memory-exhausted", f"{kind} via {mode}: MemoryError escaped under the 1.5 GiB address-space limit ({fam}/{rec.get('op')})", rep)
@@ -352,6 +357,8 @@ def main(run):
     causes = set()
     outcomes = {}
     slow = 0
+    slowest: list = []
+    run._pending_cpu = {}
     for case, ob in pool.run_cases("checks.c01:work", gen_cases(run), deadline_s=150, rlimit_as=int(1.5 * 2**30)):
         oc = judge(run, case, ob)
         rec = case["recipe"]
@@ -366,11 +373,37 @@ def main(run):
         outcomes[oc.split(":")[0]] = outcomes.get(oc.split(":")[0], 0) + 1
         if ob.get("cpu_s", 0) > ob.get("budget", 1e9):
             slow += 1
+        if ob.get("budget"):
+            slowest.append((round(ob.get("cpu_s", 0) / ob["budget"], 2), ob.get("cpu_s"), case["kind"], case["mode"], str(rec["src"])[:80], rec.get("op"), rec.get("mseed")))
+            if len(slowest) > 400:
+                slowest.sort(key=lambda x: x[0], reverse=True)
+                del slowest[12:]
+    # CPU-budget verdicts: re-measure up to three cases per location, one at a time, on the now quiet machine
+    confirmed = unconfirmed = 0
+    for key, items in sorted(run._pending_cpu.items()):
+        hit = None
+        for case, what in items[:3]:
+            c2 = dict(case, _confirming=True)
+            for _, ob2 in pool.run_cases("checks.c01:work", [c2], workers=1, deadline_s=200, rlimit_as=int(1.5 * 2**30)):
+                if ob2.get("_cpu_exhausted") or ob2.get("_cpu_budget_fired_at") or (ob2.get("_timeout") and ob2.get("cpu_s", 0) > 20):
+                    hit = (case, what)
+            if hit:
+                break
+        if hit:
+            confirmed += 1
+            for case, what in items:
+                run.violation(key, what + " [confirmed by a re-measurement alone]", {"case": case})
+        else:
+            unconfirmed += len(items)
+    run.count("cpu_budget_verdicts_confirmed_alone", confirmed)
+    run.count("cpu_budget_exceeded_only_while_sharing_the_cores", unconfirmed)
     for k in corpus.KINDS:
         run.count(f"reached_{k}", reached.get(k, 0))
         run.require(f"reached_{k}", reached.get(k, 0), run.n(10, 200))
     run.require("distinct_wrapped_cause_types", len(causes), 5)
     run.count("over_budget_under_10x", slow)
+    slowest.sort(key=lambda x: x[0], reverse=True)
+    run.extras["cases_closest_to_the_cpu_budget"] = [{"cpu_over_budget": a, "cpu_s": b, "kind": c, "mode": d, "src": e, "op": f, "mseed": g} for a, b, c, d, e, f, g in slowest[:12]]
     run.extras["outcome_classes"] = outcomes
     run.extras["wrapped_cause_types"] = sorted(causes)
 
